@@ -3,11 +3,8 @@ package phylip
 import (
 	"bufio"
 	"bytes"
-	"errors"
 	"io"
 	"strconv"
-
-	alignio "github.com/evolbioinfo/goalign/io"
 )
 
 // Scanner represents a lexical scanner.
@@ -68,7 +65,8 @@ func (s *Scanner) Scan() (tok Token, lit string) {
 			if isNL(ch) {
 				return ENDOFLINE, ""
 			}
-			alignio.ExitWithMessage(errors.New("\\r without \\n detected"))
+			// \r without \n: not a valid end of line
+			return ILLEGAL, string(ch)
 		} else {
 			return ENDOFLINE, ""
 		}
